@@ -15,7 +15,8 @@
                           after the reference element (first / last field of the
                           reference name when that key is un-indexed); refused
                           when the reference is itself being moved
-      sort                stable sort by lower-cased name
+      sort key            stable sort by the key of the name (default: the lower-cased
+                          name): fields whose keys tie keep their relative order
       set                 the first masked field is replaced by the new field, the
                           other masked fields go; a new name is appended
       del                 the masked fields go
@@ -119,7 +120,7 @@ Fixpoint set_mask (m : list bool) (v : field) (fs : list field) : list field :=
 Inductive pop :=
 | PFirst (k : key) | PLast (k : key)
 | PBefore (k r : key) | PAfter (k r : key)
-| PSort
+| PSort (sk : sortkey)
 | PSetF (k : key) (v : field)        (* the new field, as a whole element *)
 | PDel (k : key).
 
@@ -127,7 +128,7 @@ Inductive pop :=
 Inductive plan :=
 | PlFirst (m : list bool) | PlLast (m : list bool)
 | PlRel (after : bool) (m r : list bool)
-| PlSort
+| PlSort (sk : sortkey)
 | PlAdd (v : field)
 | PlSet (m : list bool) (v : field)
 | PlDel (m : list bool).
@@ -158,7 +159,7 @@ Definition sp_plan (o : pop) (fs : list field) : option (plan * bool) :=
           if overlap m rm then None else Some (PlRel true m rm, neg || neg')
       | _, _ => None
       end
-  | PSort => Some (PlSort, false)
+  | PSort sk => Some (PlSort sk, false)
   | PSetF k v =>
       let (n, idx) := key_parts k in
       if negb (has_name n v) then None else
@@ -186,7 +187,7 @@ Definition run_plan (pl : plan) (fs : list field) : list field :=
   | PlFirst m => mv_first m fs
   | PlLast m => mv_last m fs
   | PlRel after m r => mv_rel after m r fs
-  | PlSort => sort_by (fun f => lower (f_name f)) fs
+  | PlSort sk => sort_fields_by sk fs
   | PlAdd v => fs ++ [v]
   | PlSet m v => set_mask m v fs
   | PlDel m => unpick m fs
